@@ -3,6 +3,9 @@
    coq/gen/Gen_minerals.v also contains, regenerated from the current source on every run
    (translator/specs_minerals.py, "the driver around the integrator"):
      k_lsoda_args_n{n}        what Mineral.update_orientations constructs scipy's LSODA with
+                              (regime / phase / fabric of the mineral are symbolic ordinals in the driver traces:
+                              the lemmas hold for ALL of them, i.e. the driver does not branch on them; the traced
+                              mineral carries an older DECOY snapshot, so reading snapshot [0] instead of [-1] shows)
      k_lsoda_args_user_n1     ... when the caller passes atol / rtol / first_step / max_step / min_step
      k_update_loop_n{n}_m{m}  the whole update with an integrator that takes m steps (state vectors
                               y1..ym) and whose step `fail` fails (or only reports a message, -fail)
@@ -26,19 +29,19 @@ Ltac args_tac :=
        chunks9 firstn skipn concat app map c_1em6 c_1em4 c_1em1 mk_arr nth];
   reflexivity.
 
-Lemma lsoda_args_inst_1 (Fd o f : RL) (t0 t1 : R) :
+Lemma lsoda_args_inst_1 (regime ph fb : Z) (Fd o f : RL) (t0 t1 : R) :
   length Fd = 9%nat -> length o = 9%nat -> length f = 1%nat ->
-  @k_lsoda_args_n1 NumR (A Fd) (A o) (A f) t0 t1
+  @k_lsoda_args_n1 NumR regime ph fb (A Fd) (A o) (A f) t0 t1
   = problem_view (@lsoda_problem_of NumR Fd {| sn_o := @chunks9 NumR o 1; sn_f := f |} t0 t1).
 Proof. intros HF Ho Hf. explode Fd HF. explode o Ho. explode f Hf. unfold k_lsoda_args_n1. args_tac. Qed.
-Lemma lsoda_args_inst_2 (Fd o f : RL) (t0 t1 : R) :
+Lemma lsoda_args_inst_2 (regime ph fb : Z) (Fd o f : RL) (t0 t1 : R) :
   length Fd = 9%nat -> length o = 18%nat -> length f = 2%nat ->
-  @k_lsoda_args_n2 NumR (A Fd) (A o) (A f) t0 t1
+  @k_lsoda_args_n2 NumR regime ph fb (A Fd) (A o) (A f) t0 t1
   = problem_view (@lsoda_problem_of NumR Fd {| sn_o := @chunks9 NumR o 2; sn_f := f |} t0 t1).
 Proof. intros HF Ho Hf. explode Fd HF. explode o Ho. explode f Hf. unfold k_lsoda_args_n2. args_tac. Qed.
-Lemma lsoda_args_inst_3 (Fd o f : RL) (t0 t1 : R) :
+Lemma lsoda_args_inst_3 (regime ph fb : Z) (Fd o f : RL) (t0 t1 : R) :
   length Fd = 9%nat -> length o = 27%nat -> length f = 3%nat ->
-  @k_lsoda_args_n3 NumR (A Fd) (A o) (A f) t0 t1
+  @k_lsoda_args_n3 NumR regime ph fb (A Fd) (A o) (A f) t0 t1
   = problem_view (@lsoda_problem_of NumR Fd {| sn_o := @chunks9 NumR o 3; sn_f := f |} t0 t1).
 Proof. intros HF Ho Hf. explode Fd HF. explode o Ho. explode f Hf. unfold k_lsoda_args_n3. args_tac. Qed.
 
@@ -100,24 +103,24 @@ Ltac loop_tac upd_eq kupd :=
 (* m solver steps, step `fail` failing: the stored snapshot and the returned F are those of
    Model_minerals.update applied to the LAST state vector (earlier vectors are dead code), the sliding
    reference is the snapshot the update started from; a failure stores nothing *)
-Lemma update_loop_inst_1_2 (fail : Z) (chi : R) (prev pf y1 y2 : RL) :
+Lemma update_loop_inst_1_2 (fail regime ph fb : Z) (chi : R) (prev pf y1 y2 : RL) :
   length prev = 9%nat -> length y2 = 19%nat ->
-  @k_update_loop_n1_m2 NumR fail chi (A prev) (A y1) (A y2)
+  @k_update_loop_n1_m2 NumR fail regime ph fb chi (A prev) (A y1) (A y2)
   = upd_view (@update_steps NumR 1 chi [{| sn_o := @chunks9 NumR prev 1; sn_f := pf |}] (loop_steps fail [y1; y2])).
 Proof. intros Hp Hy. unfold k_update_loop_n1_m2. loop_tac (update_inst_1 chi prev pf y2 Hp Hy) (@k_update_n1). Qed.
-Lemma update_loop_inst_1_3 (fail : Z) (chi : R) (prev pf y1 y2 y3 : RL) :
+Lemma update_loop_inst_1_3 (fail regime ph fb : Z) (chi : R) (prev pf y1 y2 y3 : RL) :
   length prev = 9%nat -> length y3 = 19%nat ->
-  @k_update_loop_n1_m3 NumR fail chi (A prev) (A y1) (A y2) (A y3)
+  @k_update_loop_n1_m3 NumR fail regime ph fb chi (A prev) (A y1) (A y2) (A y3)
   = upd_view (@update_steps NumR 1 chi [{| sn_o := @chunks9 NumR prev 1; sn_f := pf |}] (loop_steps fail [y1; y2; y3])).
 Proof. intros Hp Hy. unfold k_update_loop_n1_m3. loop_tac (update_inst_1 chi prev pf y3 Hp Hy) (@k_update_n1). Qed.
-Lemma update_loop_inst_2_2 (fail : Z) (chi : R) (prev pf y1 y2 : RL) :
+Lemma update_loop_inst_2_2 (fail regime ph fb : Z) (chi : R) (prev pf y1 y2 : RL) :
   length prev = 18%nat -> length y2 = 29%nat ->
-  @k_update_loop_n2_m2 NumR fail chi (A prev) (A y1) (A y2)
+  @k_update_loop_n2_m2 NumR fail regime ph fb chi (A prev) (A y1) (A y2)
   = upd_view (@update_steps NumR 2 chi [{| sn_o := @chunks9 NumR prev 2; sn_f := pf |}] (loop_steps fail [y1; y2])).
 Proof. intros Hp Hy. unfold k_update_loop_n2_m2. loop_tac (update_inst_2 chi prev pf y2 Hp Hy) (@k_update_n2). Qed.
-Lemma update_loop_inst_3_2 (fail : Z) (chi : R) (prev pf y1 y2 : RL) :
+Lemma update_loop_inst_3_2 (fail regime ph fb : Z) (chi : R) (prev pf y1 y2 : RL) :
   length prev = 27%nat -> length y2 = 39%nat ->
-  @k_update_loop_n3_m2 NumR fail chi (A prev) (A y1) (A y2)
+  @k_update_loop_n3_m2 NumR fail regime ph fb chi (A prev) (A y1) (A y2)
   = upd_view (@update_steps NumR 3 chi [{| sn_o := @chunks9 NumR prev 3; sn_f := pf |}] (loop_steps fail [y1; y2])).
 Proof. intros Hp Hy. unfold k_update_loop_n3_m2. loop_tac (update_inst_3 chi prev pf y2 Hp Hy) (@k_update_n3). Qed.
 
@@ -177,10 +180,10 @@ Ltac bulk_tac :=
   repeat match goal with H : (_, _) = (_, _) |- _ => clear H end;
   cbv [sn_o sn_f chunks9 firstn skipn concat app mk_arr nth]; reflexivity.
 
-Lemma update_all_inst_1_2 (fail : Z) (chi : R) (Fd o1 f1 o2 f2 y1 y2 : RL) :
+Lemma update_all_inst_1_2 (fail regime ph fb : Z) (chi : R) (Fd o1 f1 o2 f2 y1 y2 : RL) :
   length Fd = 9%nat -> length o1 = 9%nat -> length f1 = 1%nat -> length o2 = 9%nat -> length f2 = 1%nat ->
   length y1 = 19%nat -> length y2 = 19%nat ->
-  @k_update_all_n1_k2 NumR fail chi (A Fd) (A o1) (A f1) (A o2) (A f2) (A y1) (A y2)
+  @k_update_all_n1_k2 NumR fail regime ph fb chi (A Fd) (A o1) (A f1) (A o2) (A f2) (A y1) (A y2)
   = bulk_view2 Fd [hist1 1 o1 f1; hist1 1 o2 f2]
       (@bulk_update NumR 1 chi [hist1 1 o1 f1; hist1 1 o2 f2] (loop_steps fail [y1; y2])).
 Proof.
@@ -191,10 +194,10 @@ Proof.
   bulk_tac.
 Qed.
 
-Lemma update_all_inst_1_3 (fail : Z) (chi : R) (Fd o1 f1 o2 f2 o3 f3 y1 y2 y3 : RL) :
+Lemma update_all_inst_1_3 (fail regime ph fb : Z) (chi : R) (Fd o1 f1 o2 f2 o3 f3 y1 y2 y3 : RL) :
   length Fd = 9%nat -> length o1 = 9%nat -> length f1 = 1%nat -> length o2 = 9%nat -> length f2 = 1%nat ->
   length o3 = 9%nat -> length f3 = 1%nat -> length y1 = 19%nat -> length y2 = 19%nat -> length y3 = 19%nat ->
-  @k_update_all_n1_k3 NumR fail chi (A Fd) (A o1) (A f1) (A o2) (A f2) (A o3) (A f3) (A y1) (A y2) (A y3)
+  @k_update_all_n1_k3 NumR fail regime ph fb chi (A Fd) (A o1) (A f1) (A o2) (A f2) (A o3) (A f3) (A y1) (A y2) (A y3)
   = bulk_view3 Fd [hist1 1 o1 f1; hist1 1 o2 f2; hist1 1 o3 f3]
       (@bulk_update NumR 1 chi [hist1 1 o1 f1; hist1 1 o2 f2; hist1 1 o3 f3] (loop_steps fail [y1; y2; y3])).
 Proof.
